@@ -391,6 +391,8 @@ type allKinds struct {
 	F64 float64 `header:"Float Sixty Four"`
 	T   time.Time
 	D   time.Time `format:"2006-01-02"`
+	// a column that is renamed AND has its own layout (milliseconds, no zone)
+	TM time.Time `header:"Stamp (ms)" format:"2006-01-02T15:04:05.000"`
 }
 
 var nastyStrings = []string{"", "plain", "with,comma", "with \"quotes\"", "line\nbreak", " leading", "trailing ", "ünïcödé ✓", "a,b\"c\nd", "\t", "'",
@@ -441,6 +443,7 @@ func genAllKinds(r *rand.Rand) *allKinds {
 		F32: finite32(fl()), F64: fl(),
 		T: time.Date(2000+r.Intn(60), time.Month(1+r.Intn(12)), 1+r.Intn(28), r.Intn(24), r.Intn(60), r.Intn(60), 0, time.UTC),
 		D: time.Date(2000+r.Intn(60), time.Month(1+r.Intn(12)), 1+r.Intn(28), 0, 0, 0, 0, time.UTC),
+		TM: time.Date(2000+r.Intn(60), time.Month(1+r.Intn(12)), 1+r.Intn(28), r.Intn(24), r.Intn(60), r.Intn(60), r.Intn(1000)*1000000, time.UTC),
 	}
 }
 
